@@ -5,6 +5,7 @@ CONSTANTS
   Conts <- cConts
   MaxList = 2
   MaxNodes = 5
+  PairNodes = 0
   SearchKeys = {"a", "b", "*", "z"}
   CondKeys = {"a", "b"}
   MaxConds = 2
